@@ -82,7 +82,7 @@ class Hand(twisted.internet.protocol.Protocol):
                 dawgie.pl.farm.ARCHIVE |= any(msg.values)
                 dawgie.pl.schedule.update(msg.values, job, msg.runid)
             else:
-                dawgie.pl.schedule.purge(job, inc)
+                dawgie.pl.schedule.purge(job, inc, executing=False)
 
         except IndexError:
             log.error('Could not find job with ID: %s', msg.jobid)
